@@ -4,6 +4,7 @@
    stream is any stream with the partition property that C12 proves. *)
 From EV Require Import Base.Str Base.PyVal Model.Tokenize Model.Editions Model.Filter Model.Pipeline.
 From EV Require Import Proofs.TokenizeProofs Proofs.PipeSpec Proofs.PipeWindows Proofs.PipeOffsets Proofs.PipeCompose.
+From EV Require Import Regex.Syntax Regex.Decl Regex.Match Regex.MatchSound Model.SearchEngine Proofs.SearchEngineProofs.
 Open Scope Z_scope.
 
 (* every returned citation: 0 <= full start <= span start <= span end <= full end <= len(text);
@@ -57,3 +58,31 @@ Theorem C02_window_bwd : forall MAXC text words index so, stream_ok text words -
             window_bwd MAXC words index so = slice text (pos words index - n) (pos words index).
 Proof. exact window_bwd_suffix. Qed.
 Print Assumptions C02_window_bwd.
+
+(* ---- the metadata searches computed by the engine model (Regex/Match.v on the ASTs regenerated into
+   Gen/MetaRegex.v; its agreement with the `regex` module is checked on every recorded call) satisfy
+   BY THEOREM the span part of the contract that C02_offsets assumes of the oracle ---- *)
+Theorem C02_engine_match_objects_ok : forall U table p w m,
+  engine_search U table p w = Some m -> mres_ok w m.
+Proof. exact engine_mres_ok. Qed.
+Print Assumptions C02_engine_match_objects_ok.
+
+Theorem C02_engine_forward_start : forall U table p w m r names,
+  table p = (Cat Bol r, names) -> p <> PYearMatch -> engine_search U table p w = Some m -> m_start m = 0%nat.
+Proof. exact engine_fwd_start. Qed.
+Print Assumptions C02_engine_forward_start.
+
+Theorem C02_engine_backward_end : forall U table p w m r names,
+  table p = (Cat r Eol, names) -> p <> PYearMatch -> engine_search U table p w = Some m ->
+  m_end m = length w \/ (S (m_end m) = length w /\ nth_error w (m_end m) = Some 10%N).
+Proof. exact engine_bwd_end. Qed.
+Print Assumptions C02_engine_backward_end.
+
+(* the engine is sound for the declarative semantics: what it reports is a match, at the leftmost start *)
+Theorem C02_engine_sound : forall U ci s r i j c,
+  search U ci s r = Some (i, j, c) ->
+  M U ci s r i j /\ (i <= j)%nat /\ (j <= length s)%nat /\
+  (forall n a b, In (n, (a, b)) c -> (i <= a)%nat /\ (a <= b)%nat /\ (b <= j)%nat) /\
+  (forall i', (i' < i)%nat -> match_at U ci s r i' = None).
+Proof. exact search_sound. Qed.
+Print Assumptions C02_engine_sound.
